@@ -31,6 +31,9 @@ def dispatch(prop, tier, seed):
     if prop == "C13":
         from . import eng_ctx
         return eng_ctx.check(prop, tier, seed)
+    if prop == "C14":
+        from . import eng_exitstack
+        return eng_exitstack.check(prop, tier, seed)
     if prop == "C09":
         from . import eng_tee
         return eng_tee.check(prop, tier, seed)
